@@ -236,12 +236,47 @@ def _r4(ctx):
         ctx.check(bool(acc) and bool(rets) and U(rets[0].value) == U(acc[0][1]["M_a"]), "R4", "all expanded lines are returned",
                   f.where(), "expanded ranges are not accumulated into the returned list", f.qname, "accumulate")
     i = ctx.func("osaca.inspect")
-    sel = pm.find("kernel = [M_l for M_l in parsed_code if M_l.line_number in M_r]", i.node)
-    src = pm.find("M_r = get_line_range(args.lines)", i.node)
-    ok = bool(sel) and bool(src) and U(sel[0][1]["M_r"]) == U(src[0][1]["M_r"]) and any(
-        p2 and U(e) == "args.lines" for e, p2 in C.facts_at(sel[0][0]))
-    ctx.check(ok, "R4", "--lines selects parsed lines by line_number membership (overriding markers)", i.where(),
-              "kernel selection under --lines changed", i.qname, "lines selection")
+    # the kernel under --lines = the parsed lines whose number is named, each once, in file order
+    flow = C.flow_of(i)
+    ksel = [a for a in C.assigns_to(i.node, "kernel") if isinstance(a, ast.Assign) and any(
+        p2 and U(e) == "args.lines" for e, p2 in C.facts_at(a))]
+
+    def strip_wrappers(e, names=("set", "frozenset", "list", "tuple", "sorted")):
+        seen = []
+        while isinstance(e, ast.Call) and isinstance(e.func, ast.Name) and e.func.id in names and len(e.args) == 1:
+            seen.append(e.func.id)
+            e = e.args[0]
+        return e, seen
+    verdict, why, node = None, "no assignment to `kernel` under `if args.lines`", None
+    if len(ksel) == 1:
+        node = ksel[0]
+        v = flow.subst(node.value)
+        if isinstance(v, ast.ListComp) and len(v.generators) == 1:
+            g = v.generators[0]
+            it, wr = strip_wrappers(g.iter, ("list", "tuple"))
+            if U(it) == "parsed_code" and U(v.elt) == U(g.target) and len(g.ifs) == 1:
+                c = g.ifs[0]
+                if isinstance(c, ast.Compare) and len(c.ops) == 1 and isinstance(c.ops[0], ast.In) and U(c.left) == U(g.target) + ".line_number":
+                    src_e, _ = strip_wrappers(c.comparators[0])
+                    verdict = U(src_e) == "get_line_range(args.lines)"
+                    why = "membership is tested in `%s`, not in get_line_range(args.lines)" % U(c.comparators[0])
+            elif "parsed_code" in U(g.iter) and len(g.ifs) == 1 and isinstance(g.ifs[0], ast.Compare) and isinstance(g.ifs[0].ops[0], ast.In) \
+                    and U(strip_wrappers(g.ifs[0].comparators[0])[0]) == "get_line_range(args.lines)":
+                verdict = False
+                why = "a line is selected when `%s` is among the named numbers, not when its line_number is (blank lines are not parsed, so positions and line numbers differ)" % U(g.ifs[0].left)
+            else:
+                it2, wr2 = strip_wrappers(g.iter)
+                if U(it2) == "get_line_range(args.lines)":
+                    # driven by the option string: order and repeats follow what the user typed
+                    if "sorted" in wr2 and ("set" in wr2 or "frozenset" in wr2):
+                        verdict, why = True, ""
+                    else:
+                        verdict = False
+                        why = ("the kernel is built by iterating the expanded --lines list (`%s`), so a line named twice (`4-7,6-9`) "
+                               "enters the kernel twice and ranges given out of file order (`8-9,4-7`) reorder the instructions; "
+                               "the named lines must be taken once each, in file order" % U(g.iter)[:80])
+    ctx.judge(verdict is True, verdict is not None, "R4", "--lines selects the named parsed lines, once each, in file order (overriding markers)",
+              i.where(node) if node is not None else i.where(), "kernel selection under --lines: %s" % why, i.qname, "lines selection")
     red = [a for a in C.assigns_to(i.node, "kernel") if C.is_call_to(a.value, "reduce_to_section")]
     ctx.check(bool(red) and [U(a) for a in red[0].value.args] == ["parsed_code", "isa"] and any(
         (not p2) and U(e) == "args.lines" for e, p2 in C.facts_at(red[0])), "R4", "otherwise the marked section (or whole file)",
